@@ -1,12 +1,10 @@
 (* Proofs about the model in Partition.v: each transcribed loop computes the
    reference definition, for every list and every size >= 1. *)
-From Typ Require Import Lib.Base Slices.Partition.
+From Typ Require Import Lib.Base Slices.Partition Slices.PartitionCheck.
 
 Section Proofs.
 Context {A : Type}.
 Implicit Types (l slice : list A).
-
-Definition piece l size k := firstn size (skipn (k * size) l).
 
 Lemma slice_range_ok l lo hi : lo <= hi -> hi <= length l ->
   slice_range l lo hi = Ok (firstn (hi - lo) (skipn lo l)).
@@ -146,7 +144,6 @@ Qed.
 Theorem chunk_ref_concat l size : 1 <= size -> concat (chunk_ref l size) = l.
 Proof.
   intros Hs. unfold chunk_ref. pose proof (div_facts (length l) size Hs) as [H1 H2].
-  change (fun k : nat => firstn size (skipn (k * size) l)) with (piece l size).
   destruct (Nat.eq_dec ((length l / size) * size) (length l)) as [He|He].
   - rewrite cdiv_exact by assumption. rewrite concat_pieces by lia. rewrite He. apply firstn_all.
   - rewrite cdiv_inexact by assumption. rewrite concat_pieces by lia. apply firstn_all2. lia.
@@ -298,6 +295,52 @@ Proof.
     + simpl in *. congruence.
     + change (combine (x :: y :: l) (tl (x :: y :: l))) with ((x, y) :: combine (y :: l) (tl (y :: l))).
       simpl nth_error. apply IH; assumption.
+Qed.
+
+(* ---- sizes above the length: one chunk holding everything, no window ---- *)
+
+Theorem windowed_none l size : length l < size -> windowed l size = Ok [] /\ windowedfunc l size = Ok [].
+Proof.
+  intros H. unfold windowed, windowedfunc.
+  destruct (Nat.ltb_spec (length l) size); [split; reflexivity | lia].
+Qed.
+
+Lemma chunk_ref_size_above l size : length l < size ->
+  chunk_ref l size = match l with [] => [] | _ :: _ => [l] end.
+Proof.
+  intros H. unfold chunk_ref. destruct l as [|a l'].
+  - unfold cdiv. simpl length. rewrite Nat.div_small by lia. reflexivity.
+  - set (l := a :: l') in *. assert (Hn : 1 <= length l) by (simpl; lia).
+    assert (Hc : cdiv (length l) size = 1).
+    { unfold cdiv. symmetry. apply Nat.div_unique with (r := length l - 1); lia. }
+    rewrite Hc. simpl. unfold piece. simpl skipn. rewrite firstn_all2 by lia. reflexivity.
+Qed.
+
+Theorem chunk_size_above l size : length l < size ->
+  chunk l size = Ok (match l with [] => [] | _ :: _ => [l] end) /\
+  chunkfunc l size = Ok (match l with [] => [] | _ :: _ => [l] end).
+Proof.
+  intros H. rewrite chunk_correct, chunkfunc_correct by lia.
+  rewrite chunk_ref_size_above by assumption. split; reflexivity.
+Qed.
+
+(* The correspondence check replaces a size above n by n + 1 (a size such as 2^63-1 cannot be
+   written as a unary [nat]); the model gives the same result for both. *)
+Theorem clamp_size_sound l (z : Z) :
+  let size := Z.to_nat z in
+  let size' := clamp_size l z in
+  chunk l size = chunk l size' /\ chunkfunc l size = chunkfunc l size' /\
+  windowed l size = windowed l size' /\ windowedfunc l size = windowedfunc l size'.
+Proof.
+  intros size size'. subst size size'. unfold clamp_size.
+  destruct (Z.le_gt_cases z (Z.of_nat (length l) + 1)) as [Hle|Hgt].
+  - rewrite Z.min_l by lia. repeat split; reflexivity.
+  - rewrite Z.min_r by lia.
+    replace (Z.to_nat (Z.of_nat (length l) + 1)) with (S (length l)) by lia.
+    assert (H1 : length l < Z.to_nat z) by lia. assert (H2 : length l < S (length l)) by lia.
+    destruct (chunk_size_above l _ H1) as [-> ->]. destruct (chunk_size_above l _ H2) as [-> ->].
+    destruct (windowed_none l _ H1) as [-> ->]. destruct (windowed_none l _ H2) as [-> ->].
+    repeat split; reflexivity.
 Qed.
 
 End Proofs.
